@@ -699,6 +699,16 @@ CORPUS = [
 ]
 
 
+def coq_eval_retry(name, exprs, chunk):
+    """core.coq_eval, repeated once with smaller chunks when a coqc process failed: on a loaded machine a chunk can
+    be killed or run into its timeout; a real evaluation error fails again and is then reported."""
+    try:
+        return core.coq_eval(name, IMPORTS, exprs, chunk=chunk)
+    except core.CoqEvalError:
+        time.sleep(5)
+        return core.coq_eval(name + 'r', IMPORTS, exprs, chunk=max(1, chunk // 3), timeout=1800)
+
+
 def check_against_model(ctx, tag, traces, fx=False):
     """Compare per-event view hashes inside coqc; on a difference fetch the model's views.
     fx: compare with Model/ItemsFixed.v (step_fx) instead of Model/Items.v (step)."""
@@ -708,7 +718,7 @@ def check_against_model(ctx, tag, traces, fx=False):
         exprs.append('first_diff' + sfx + ' 0%%Z init %s %s%%Z' % (
             core.coq_list([coq_event(e) for e in t['events']]),
             core.coq_list([str(vhash(v)) for v in t['views']])))
-    res = core.coq_eval('c07' + tag, IMPORTS, exprs, chunk=150)
+    res = coq_eval_retry('c07' + tag, exprs, 150)
     bad = []
     for t, r in zip(traces, res):
         ctx.cov['disagreements_checked'] += len(t['events'])
@@ -718,7 +728,7 @@ def check_against_model(ctx, tag, traces, fx=False):
             bad.append((t, k))
     if bad:
         exprs = ['views' + sfx + ' init %s' % core.coq_list([coq_event(e) for e in t['events'][:max(k, 0) + 1]]) for t, k in bad[:5]]
-        res = core.coq_eval('c07' + tag + 'v', IMPORTS, exprs, chunk=1)
+        res = coq_eval_retry('c07' + tag + 'v', exprs, 1)
         for (t, k), r in zip(bad[:5], res):
             rows = core.re.findall(r'\[([^\[\]]*)\]', r or '')
             model_view = [int(x) for x in core.re.findall(r'-?\d+', rows[-1])] if rows else None
@@ -775,7 +785,7 @@ def run(ctx):
     # generated
     phase = ctx.cov.setdefault('phase_s', {})
     stats = {'n': {}, 'c': {}, 'mode': {}, 'style': {}, 'final': {}, 'events': 0, 'redo_rounds': 0, 'oracle_signatures': {}}
-    for tag, count, malformed in (('sequences', ctx.n(2500, 40000), False), ('malformed', ctx.n(700, 10000), True)):
+    for tag, count, malformed in (('sequences', ctx.n(2500, 30000), False), ('malformed', ctx.n(700, 8000), True)):
         t0 = time.time()
         traces = gen_traces(ctx, count, malformed)
         phase['generate+run-impl:' + tag] = round(time.time() - t0, 1)
@@ -833,8 +843,8 @@ def suite_fixed_variant(ctx):
     for c in CORPUS:
         views, failure, _ = run_events(c['events'], c['mode'], variant='patched')
         traces.append({'events': [tuple(e) for e in c['events']], 'views': views, 'mode': c['mode'], 'failure': failure})
-    traces += gen_traces(ctx, ctx.n(600, 8000), False, variant='patched')
-    traces += gen_traces(ctx, ctx.n(200, 2000), True, variant='patched')
+    traces += gen_traces(ctx, ctx.n(600, 5000), False, variant='patched')
+    traces += gen_traces(ctx, ctx.n(200, 1500), True, variant='patched')
     for t in traces:
         ctx.count('fixed_variant', (t['mode'], tuple(t['events'])), evaluations=len(t['events']))
         if t['failure']:
